@@ -1,6 +1,8 @@
 // apicase: one description per API call (buffers with role and declared extent, expected image)
 // and a generic executor.  Different properties are different oracles over the same cases.
 #pragma once
+#include <setjmp.h>
+#include <signal.h>
 #include "bufs.hpp"
 
 namespace vf {
@@ -35,24 +37,50 @@ struct ApiCase {
 struct ExecOpts {
   int prefill = 0;          // pattern for OUT and SCRATCH storage (0x00 / 0xFF / sNaN-like)
   size_t off[12] = {0};     // byte offset of each storage group's start from a 64-byte boundary
+  bool protect_inputs = false;  // read-only operands that share no storage with an output live in their own read-only mapping during the call
 };
 
 struct ExecResult {
   std::vector<std::vector<uint8_t>> before, after;  // per buffer
   bool guards_ok = true;
+  int input_write_fault = -1;  // index of the read-only operand the call tried to write into (protect_inputs), else -1
   unsigned csr_before = 0, csr_after = 0;  // MXCSR control bits (rounding mode, flush-to-zero, denormals-are-zero, masks)
 };
 
 inline int root_of(const ApiCase& c, int i) { while (c.bufs[i].alias_of >= 0) i = c.bufs[i].alias_of; return i; }
+
+// write trap for protect_inputs: a SIGSEGV inside the protected call returns to execute()
+struct InputTrap { sigjmp_buf jb; volatile int armed = 0; volatile uintptr_t addr = 0; bool installed = false;
+                   uintptr_t lo[12], hi[12]; volatile int nreg = 0; struct sigaction old; };
+inline InputTrap& input_trap() { static InputTrap t; return t; }
+inline void input_trap_handler(int sig, siginfo_t* si, void* uc) {
+  InputTrap& t = input_trap();
+  uintptr_t a = (uintptr_t)si->si_addr;
+  if (t.armed) for (int i = 0; i < t.nreg; ++i) if (a >= t.lo[i] && a < t.hi[i]) { t.armed = 0; t.addr = a; siglongjmp(t.jb, 1); }
+  // not one of the protected operands: whoever handled SIGSEGV before (Engine B's write trap, the sanitizer, or nobody) decides
+  if ((t.old.sa_flags & SA_SIGINFO) && t.old.sa_sigaction) { t.old.sa_sigaction(sig, si, uc); return; }
+  if (!(t.old.sa_flags & SA_SIGINFO) && t.old.sa_handler != SIG_DFL && t.old.sa_handler != SIG_IGN && t.old.sa_handler) { t.old.sa_handler(sig); return; }
+  signal(sig, SIG_DFL); raise(sig);
+}
+inline void input_trap_install() {
+  InputTrap& t = input_trap();
+  if (t.installed) return;
+  struct sigaction sa; memset(&sa, 0, sizeof sa); sa.sa_sigaction = input_trap_handler; sa.sa_flags = SA_SIGINFO | SA_NODEFER; sigemptyset(&sa.sa_mask);
+  sigaction(SIGSEGV, &sa, &t.old);
+  t.installed = true;
+}
 
 inline void execute(const ApiCase& c, const ExecOpts& o, ExecResult& r) {
   const int nb = (int)c.bufs.size();
   std::vector<size_t> gbytes(nb, 0);
   std::vector<GBuf> store(nb);
   for (int i = 0; i < nb; ++i) { int g = root_of(c, i); gbytes[g] = std::max(gbytes[g], c.bufs[i].bytes); }
+  // a storage group is read-only when every buffer in it is a pure input
+  std::vector<char> ro(nb, 0);
+  if (o.protect_inputs) for (int i = 0; i < nb; ++i) if (root_of(c, i) == i && c.bufs[i].bytes) { bool all_in = true; for (int j = 0; j < nb; ++j) if (root_of(c, j) == i && c.bufs[j].role != R_IN) all_in = false; ro[i] = all_in; }
   for (int i = 0; i < nb; ++i) {
     if (root_of(c, i) != i) continue;
-    store[i].init(gbytes[i], i < 12 ? o.off[i] : 0);
+    if (ro[i]) store[i].init_pages(gbytes[i], i < 12 ? o.off[i] : 0); else store[i].init(gbytes[i], i < 12 ? o.off[i] : 0);
     prefill(store[i].p, gbytes[i], o.prefill);
   }
   // inputs are written after the prefill, roots first
@@ -70,8 +98,19 @@ inline void execute(const ApiCase& c, const ExecOpts& o, ExecResult& r) {
     ptr[i] = store[root_of(c, i)].p;
     r.before[i].assign(ptr[i], ptr[i] + c.bufs[i].bytes);
   }
+  r.input_write_fault = -1;
   r.csr_before = __builtin_ia32_stmxcsr() & 0xFFC0u;
-  c.call(ptr.data());
+  if (o.protect_inputs) {
+    input_trap_install();
+    for (int i = 0; i < nb; ++i) if (ro[i]) store[i].protect(true);
+    InputTrap& t = input_trap();
+    t.nreg = 0;
+    for (int i = 0; i < nb && t.nreg < 12; ++i) if (ro[i]) { t.lo[t.nreg] = (uintptr_t)store[i].base; t.hi[t.nreg] = (uintptr_t)store[i].base + store[i].map_len - 4096; t.nreg = t.nreg + 1; }
+    if (sigsetjmp(t.jb, 1) == 0) { t.armed = 1; c.call(ptr.data()); t.armed = 0; }
+    else { for (int i = 0; i < nb; ++i) if (ro[i] && store[i].contains((const void*)t.addr)) r.input_write_fault = i; }
+    t.nreg = 0;
+    for (int i = 0; i < nb; ++i) if (ro[i]) store[i].protect(false);
+  } else c.call(ptr.data());
   r.csr_after = __builtin_ia32_stmxcsr() & 0xFFC0u;
   r.guards_ok = true;
   for (int i = 0; i < nb; ++i) {
@@ -91,6 +130,7 @@ inline std::string hexbytes(const uint8_t* p, size_t n) {
 // Returns "" or a description of the first discrepancy.
 inline std::string judge_model(const ApiCase& c, const ExecResult& r, bool check_outputs = true, bool check_inputs = true) {
   const int nb = (int)c.bufs.size();
+  if (r.input_write_fault >= 0) return sfmt("the call writes into its read-only operand '%s' (the operand was mapped read-only for the duration of the call)", c.bufs[r.input_write_fault].name.c_str());
   if (!r.guards_ok) return "a guard zone outside a declared extent was overwritten";
   for (int i = 0; i < nb; ++i) {
     const Buf& b = c.bufs[i];
